@@ -1,5 +1,7 @@
 mod common;
+mod c01;
 mod c02;
+mod c03;
 mod c06;
 mod c09;
 mod c10;
@@ -64,7 +66,9 @@ fn main() {
         }
     }));
     let rep = match prop.as_str() {
+        "c01" => c01::run(&opts),
         "c02" => c02::run(&opts),
+        "c03" => c03::run(&opts),
         "c06" => c06::run(&opts),
         "c09" => c09::run(&opts),
         "c10" => c10::run(&opts),
